@@ -136,7 +136,7 @@ def _ift_system(fc, J: RuleResult):
         J.bad(bw, st, "the linear system must be solved with the Hermitian adjoint J.H of the Jacobian", what=ast.unparse(A) if A is not None else "")
     # B = -grad_yout (sign) and built from the incoming cotangent
     cot = bw.params()[1]
-    if B is not None and cot in names_loaded(B):
+    if B is not None and cot in def_use_closure(bw.node, names_loaded(B), defs):
         sB = expr_sign(B, defs)
         J.ok(bw.fq, "right-hand side %s derives from the incoming cotangent (sign %+d)" % (ast.unparse(B), sB))
     else:
